@@ -658,9 +658,9 @@ func ForeignLines(rng *rand.Rand, w *World, loc string) []Line {
 	for _, cidr := range pick(rng, []string{"172.16.0.0/13", "100.64.0.0/10", "2001:db8:aaaa::/77", "198.18.0.0/15", "fc00::/7", "10.1.0.0/17", "198.51.1.0/26", "::/0", "ff00::/8", "0.0.0.0/0", "255.0.0.0/8"}, 1+rng.Intn(4)) {
 		// each subnet once: one subnet is never declared twice with different locations
 		l := []string{loc, "aa", "bb", "zz"}[rng.Intn(4)]
-		b.add(fmt.Sprintf("%%%s,%s,%s", OctalAll(l), cidr, OctalAll("Mz")))
+		b.add(fmt.Sprintf("%%%s,%s,%s", OctalAll(l), cidr, OctalAll("zx")))
 	}
 	// and always one that reaches the top of the address space (its last range point has no successor inside the map)
-	b.add(fmt.Sprintf("%%%s,%s,%s", OctalAll(loc), "ff80::/9", OctalAll("Mz")))
+	b.add(fmt.Sprintf("%%%s,%s,%s", OctalAll(loc), "ff80::/9", OctalAll("zx")))
 	return tmp.Lines
 }
